@@ -15,7 +15,7 @@ def main(ctx):
         "(terms in sparse-driven loops have a factor guarded by the loop); K-poly (every term is a monomial of the assignment "
         "with the same rational coefficient, every monomial computed); K-complete (a terminal adds every monomial whose stored "
         "entries are all matched on its path: no present operand is dropped); branch/sub-loop lattice order and cursor stepping. "
-        "Engine S: axis-space typing of every user-order/storage-order conversion; identifier-template unification."
+        "no-shadowing (the block-scoped reading of the IR that the K rules use coincides with the LLVM printer's one-slot-per-name hoisting). Engine S: axis-space typing of every user-order/storage-order conversion; identifier-template unification."
     )
     ctx.assumptions = FAMILY_ASSUMPTIONS + [
         "numerical equality itself (rounding, accumulation order) is NOT decided; only addressing, term/loop agreement, monomials, lattice order and wiring",
@@ -23,10 +23,11 @@ def main(ctx):
     ix = names.run(ctx)
     ctx.rule("C01.axis-typing", "every conversion between user order and storage order goes in the right direction", min_instances=60)
     axis.run_axis(ctx, ix, "C01.axis-typing", exceptions=tensorapi.axis_exceptions())
-    sweep(ctx, ["addr.k_addr", "addr.k_sum", "addr.k_dense", "addr.k_poly", "addr.k_complete", "addr.lattice_order", "cover.k_cover"])
+    sweep(ctx, ["addr.k_addr", "addr.k_sum", "addr.k_dense", "addr.k_poly", "addr.k_complete", "addr.lattice_order", "cover.k_cover", "typing.no_shadowing"])
     ctx.rule("C01.K-addr", min_instances=1500)
     ctx.rule("C01.K-sum", min_instances=1500)
     ctx.rule("C01.K-poly", min_instances=1500)
+    ctx.rule("C06.no-shadowing", min_instances=1500)
 
 
 if __name__ == "__main__":
